@@ -102,33 +102,33 @@ def edge_count(fn, W):
 def make_call(cfg):
     fn = cfg['fn']
     f = getattr(bct, fn)
-    W = np.array(cfg['W'], dtype=float)
+    W = np.array(cfg['W'], dtype=float)        # order='K': keeps a Fortran-ordered input Fortran-ordered
     p = cfg.get('params', {})
     if fn in LATTICE:
         D = None if p.get('D') is None else np.array(p['D'], dtype=p.get('D_dtype') or float)
         itr = int(p['itr'])
-        return lambda rng: f(W.copy(), itr, D=None if D is None else D.copy(), seed=rng)
+        return lambda rng: f(W.copy(order='K'), itr, D=None if D is None else D.copy(), seed=rng)
     if fn == 'randomize_graph_partial_und':
         B = np.array(p['B'], dtype=float)
         ms = int(p['maxswap'])
-        return lambda rng: f(W.copy(), B.copy(), ms, seed=rng)
+        return lambda rng: f(W.copy(order='K'), B.copy(), ms, seed=rng)
     if fn == 'randomizer_bin_und':
         alpha = float(p['alpha'])
-        return lambda rng: f(W.copy(), alpha, seed=rng)
+        return lambda rng: f(W.copy(order='K'), alpha, seed=rng)
     if fn in ('null_model_und_sign', 'null_model_dir_sign'):
         n = len(W)
         bs = budget_itr(int(p['bin_iters']), n * (n - 1) // 2)   # forwarded to randmio_und_signed as itr
         if p.get('dir_rewirer'):                                  # once the dir variant uses randmio_dir_signed
             bs = budget_itr(int(p['bin_iters']), n * (n - 1))
         wf = p['wei_freq']
-        return lambda rng: f(W.copy(), bin_swaps=bs, wei_freq=wf, seed=rng)
+        return lambda rng: f(W.copy(order='K'), bin_swaps=bs, wei_freq=wf, seed=rng)
     if fn == 'randmio_und_signed':
         itr = budget_itr(int(p['iters']), len(W) * (len(W) - 1) // 2)
     elif fn == 'randmio_dir_signed':
         itr = budget_itr(int(p['iters']), len(W) * (len(W) - 1))
     else:
         itr = budget_itr(int(p['iters']), edge_count(fn, W)) if 'iters' in p else p['itr']
-    return lambda rng: f(W.copy(), itr, seed=rng)
+    return lambda rng: f(W.copy(order='K'), itr, seed=rng)
 
 
 def unit_points_for(cfg):
